@@ -209,25 +209,36 @@ def finding_matches(f, facts):
 # building
 
 
-def build_workspace(wdir, profile='dbg', features_env=None, timeout=3600, log=None):
+SANITIZERS = {
+    # name: (cargo prefix args, extra build args, RUSTFLAGS, binary sub-directory)
+    'tsan': (['+nightly'], ['-Zbuild-std', '--target', 'x86_64-unknown-linux-gnu'], '-Zsanitizer=thread', 'x86_64-unknown-linux-gnu/debug'),
+    'asan': (['+nightly'], ['--target', 'x86_64-unknown-linux-gnu'], '-Zsanitizer=address -Cforce-frame-pointers=yes', 'x86_64-unknown-linux-gnu/debug'),
+}
+
+
+def build_workspace(wdir, profile='dbg', features_env=None, timeout=3600, log=None, sanitizer=None):
     """cargo build --keep-going. Returns (bins: {member: path or None}, stderr)."""
     tdir = os.path.join(TARGET, profile)
     os.makedirs(tdir, exist_ok=True)
     env = cargo_env({'CARGO_TARGET_DIR': tdir})
     if features_env:
         env.update(features_env)
-    cmd = ['cargo', 'build', '--offline', '--keep-going', '-j', str(NCPU)]
+    pre, extra, sub = [], [], 'debug'
+    if sanitizer:
+        pre, extra, rustflags, sub = SANITIZERS[sanitizer]
+        env['RUSTFLAGS'] = rustflags
+    cmd = ['cargo'] + pre + ['build', '--offline', '--keep-going', '-j', str(NCPU)] + extra
     p = subprocess.run(cmd, cwd=wdir, env=env, stdout=subprocess.PIPE, stderr=subprocess.STDOUT, timeout=timeout, text=True)
     members = sorted(d for d in os.listdir(wdir) if d.startswith('shard'))
     bins = {}
     for m in members:
-        b = os.path.join(tdir, 'debug', m)
+        b = os.path.join(tdir, sub, m)
         # a stale binary from an earlier workspace must not be mistaken for a fresh one
         bins[m] = b if (os.path.exists(b) and p.returncode == 0) else None
     if p.returncode != 0:
         failed = set(re.findall(r'could not compile `(shard\d+)`', p.stdout))
         for m in members:
-            b = os.path.join(tdir, 'debug', m)
+            b = os.path.join(tdir, sub, m)
             if m not in failed and os.path.exists(b) and os.path.getmtime(b) >= os.path.getmtime(os.path.join(wdir, 'Cargo.toml')) - 1:
                 bins[m] = b
     return bins, p.stdout
